@@ -79,6 +79,9 @@ pub struct SchedStats {
     /// threads started by the crate under test that ran as simulated tasks (facade build only)
     #[serde(default)]
     pub spawned_threads: u64,
+    /// environment variables the crate looked up while simulated (facade build only)
+    #[serde(default)]
+    pub env_reads: u64,
     /// site -> [hit, switched here, crashed here]
     pub sites: BTreeMap<String, [u64; 3]>,
 }
@@ -95,6 +98,7 @@ impl SchedStats {
         self.clock_reads += o.clock_reads;
         self.simulated_ns = self.simulated_ns.saturating_add(o.simulated_ns);
         self.spawned_threads += o.spawned_threads;
+        self.env_reads += o.env_reads;
         for (k, v) in &o.sites {
             let e = self.sites.entry(k.clone()).or_insert([0; 3]);
             for i in 0..3 {
@@ -129,6 +133,9 @@ pub struct State {
     /// decisions taken after the last caller finished (helper threads winding down)
     tail_decisions: u64,
     pub spawned: u64,
+    /// fixed per episode: seeds choices of the environment the crate may look at
+    episode_key: u64,
+    pub env_reads: u64,
 }
 
 pub struct Sim {
@@ -185,6 +192,8 @@ impl Sim {
                 released: false,
                 tail_decisions: 0,
                 spawned: 0,
+                episode_key: crate::rng::mix(spec.seed, 0xE17_0E17),
+                env_reads: 0,
             }),
             cvs: (0..MAX_TASKS.max(n_tasks)).map(|_| Condvar::new()).collect(),
             main_cv: Condvar::new(),
@@ -241,6 +250,7 @@ impl Sim {
         stats.clock_reads = st.clock_reads;
         stats.simulated_ns = st.sim_clock_ns;
         stats.spawned_threads = st.spawned;
+        stats.env_reads = st.env_reads;
         (st.decisions.clone(), st.trace, stats)
     }
 
@@ -685,7 +695,7 @@ mod spawned {
     }
 
     pub fn ctl(op: u32, arg: u64) -> u64 {
-        use fqcore::__fqsim::{TASK_DONE, TASK_ENTER, TASK_EXIT, TASK_IS, TASK_RAND, TASK_SPAWN};
+        use fqcore::__fqsim::{TASK_DONE, TASK_ENTER, TASK_EXIT, TASK_IS, TASK_KEY, TASK_RAND, TASK_SPAWN};
         match op {
             TASK_IS => {
                 let t = CUR.with(|c| c.borrow().as_ref().map(|t| t.sim.clone()));
@@ -742,6 +752,17 @@ mod spawned {
                             0
                         }
                     }
+                }
+            }
+            TASK_KEY => {
+                let info = CUR.with(|c| c.borrow().as_ref().map(|t| t.sim.clone()));
+                match info {
+                    Some(sim) if !sim.is_released() => {
+                        let mut st = sim.lock();
+                        st.env_reads += 1;
+                        st.episode_key | 1
+                    }
+                    _ => 0,
                 }
             }
             TASK_RAND => {
